@@ -58,6 +58,12 @@ type LAtom struct {
 	Desc  string
 }
 
+// propCall: a helper call kept as a proposition (see callForm).
+type propCall struct {
+	Fn   *ssa.Function
+	Args []Term
+}
+
 type droppedGuard struct {
 	Fn   *ssa.Function
 	Args []Term
@@ -155,6 +161,7 @@ type Summarizer struct {
 	// Dropped: boolean helper calls that appeared as a branch condition on the way to the summarised
 	// point but could not be modelled (e.g. a stack-based bracket matcher), with the polarity required there.
 	Dropped   []droppedGuard
+	PropCalls map[string]propCall
 	loopCache map[*ssa.Function][]*scanLoop
 	loopOK    map[*ssa.Function]bool
 	Inexact   []string
@@ -583,7 +590,40 @@ func (s *Summarizer) callForm(call *ssa.Call, env termEnv) *Form {
 				}
 			}
 		}
-		return s.FuncForm(f, env2)
+		nInexact := len(s.Inexact)
+		ff := s.FuncForm(f, env2)
+		if u, _ := ff.HasUnknown(); u && len(c.Args) >= 1 {
+			// the helper is not a regular condition (a stack, counters, …): keep its verdict as a proposition about its
+			// arguments, so that rules can still ask whether it is required to hold
+			var ts []string
+			allTerms := true
+			for _, a := range c.Args {
+				t, ok := s.termOf(a, env)
+				if !ok {
+					allTerms = false
+					break
+				}
+				ts = append(ts, termStr(t))
+			}
+			if allTerms {
+				s.Inexact = s.Inexact[:nInexact]
+				if len(s.InexactIn) > nInexact {
+					s.InexactIn = s.InexactIn[:nInexact]
+				}
+				pname := "call:" + name + "(" + strings.Join(ts, ",") + ")"
+				if s.PropCalls == nil {
+					s.PropCalls = map[string]propCall{}
+				}
+				var args []Term
+				for _, a := range c.Args {
+					t, _ := s.termOf(a, env)
+					args = append(args, t)
+				}
+				s.PropCalls[pname] = propCall{Fn: f, Args: args}
+				return atom(&LAtom{Kind: "prop", Str: pname, Term: Term{Param: -1}, Desc: pname})
+			}
+		}
+		return ff
 	}
 	return fUnknown("call to " + name)
 }
@@ -745,6 +785,69 @@ func (s *Summarizer) binopForm(x *ssa.BinOp, env termEnv) *Form {
 						}
 					}
 					return wrap(s.NilResultForm(f, idx, env2))
+				}
+			}
+		}
+		// phi of error values == nil: per incoming edge, the value is the nil constant or a freshly made error
+		if c, ok := b.(*ssa.Const); ok && c.Value == nil {
+			if ph, ok := a.(*ssa.Phi); ok && isErrorType(ph.Type()) {
+				d := ph.Block()
+				var alts []*Form
+				okAll := true
+				over := false
+				for i, p := range d.Preds {
+					e := ph.Edges[i]
+					k, isConst := e.(*ssa.Const)
+					isNilEdge := isConst && k.Value == nil
+					if !isNilEdge {
+						// only freshly made errors may come in on the other edges
+						ev := e
+						if mi, ok := ev.(*ssa.MakeInterface); ok {
+							ev = mi.X
+						}
+						if _, ok := isCallTo(ev, "fmt.Errorf"); !ok {
+							okAll = false
+							break
+						}
+						continue
+					}
+					cond := s.blockCond(p, env, "phi edge")
+					if iff, ok := p.Instrs[len(p.Instrs)-1].(*ssa.If); ok && p.Succs[0] != p.Succs[1] {
+						ec := s.ValueForm(iff.Cond, env)
+						if u, why := ec.HasUnknown(); u {
+							if !isNilEdge {
+								continue // a non-nil edge contributes nothing to "== nil"
+							}
+							// the nil edge under a condition that cannot be modelled: drop the conjunct (over-approximation)
+							over = true
+							s.Inexact = append(s.Inexact, "nil edge of an error phi: condition dropped ("+why+")")
+							s.InexactIn = append(s.InexactIn, ec.UnknownIn())
+							s.noteDropped(iff.Cond, p.Succs[0] == d, env)
+						} else {
+							if p.Succs[1] == d {
+								ec = fNot(ec)
+							}
+							cond = fAnd(cond, ec)
+						}
+					}
+					if isNilEdge {
+						alts = append(alts, cond) // nil on this edge
+						continue
+					}
+					if mi, ok := e.(*ssa.MakeInterface); ok {
+						e = mi.X
+					}
+					if _, ok := isCallTo(e, "fmt.Errorf"); ok {
+						continue // non-nil on this edge
+					}
+					okAll = false
+					break
+				}
+				if okAll {
+					if over {
+						return wrap(fOver(fOr(alts...)))
+					}
+					return wrap(fOr(alts...))
 				}
 			}
 		}
@@ -1413,6 +1516,12 @@ func (l *Lang) Eval(f *Form) (*relang.DFA, []string, error) {
 			}
 			return plain(f.Sub[0], true)
 		case "atom":
+			if f.Atom.Kind == "prop" {
+				if _, assigned := l.Props[f.Atom.Str]; !assigned {
+					// an unassigned proposition (e.g. the verdict of a non-regular helper): either way is possible
+					return l.All(), nil
+				}
+			}
 			d, err := atomLang(f.Atom)
 			if err != nil {
 				return nil, err
@@ -1466,6 +1575,15 @@ func (l *Lang) Eval(f *Form) (*relang.DFA, []string, error) {
 			return relang.EmptyLang(l.A), nil
 		case "unknown":
 			return nil, fmt.Errorf("unknown atom: %s", f.Why)
+		case "atom":
+			if f.Atom.Kind == "prop" {
+				return plain(f, pos)
+			}
+			d, err := plain(f, pos)
+			if err != nil {
+				return nil, err
+			}
+			return lift(d, f.Atom.Term)
 		case "not":
 			return ev(f.Sub[0], !pos)
 		case "over":
